@@ -1,39 +1,113 @@
 package asp
 
-// C18: frozen (imported) values behave like ordinary values - run through the
-// real interpreter with the real builtins.
+// C18: frozen (imported) values behave like ordinary values - decided through
+// the real parser, interpreter and builtins. Also hosts the interpreter-level
+// halves of C16 (sorted/reversed must not modify their argument) and C17 (a
+// frozen value handed to a builtin is never modified).
 
-import (
-	"strings"
+import "strings"
 
-	"github.com/thought-machine/please/rules"
-	"github.com/thought-machine/please/src/core"
-	"github.com/thought-machine/please/src/process"
-)
-
-func vpModelExecutor(config *core.Configuration) *process.Executor { return nil }
-func vpModelConfigHash(config *core.Configuration) []byte          { return make([]byte, 20) }
-
-func init() { vpRegister("vpH_C18_probe", vpH_C18_probe) }
-
-func vpInterp(src string) (*scope, error) {
-	state := core.NewBuildState(core.DefaultConfiguration())
-	parser := NewParser(state)
-	b, err := rules.ReadAsset("builtins.build_defs")
-	if err != nil {
-		panic(err)
-	}
-	parser.MustLoadBuiltins("builtins.build_defs", b)
-	stmts, err := parser.parseAndHandleErrors(strings.NewReader(src))
-	if err != nil {
-		return nil, err
-	}
-	pkg := core.NewPackage("p")
-	return parser.interpreter.interpretAll(pkg, nil, nil, 0, stmts)
+func init() {
+	vpRegister("vpH_C18_lists", vpH_C18_lists)
+	vpRegister("vpH_C18_dicts", vpH_C18_dicts)
 }
 
-func vpH_C18_probe() {
-	s, err := vpInterp("x = sorted([3, 1, 2])\ny = len(x)\n")
-	vpAssert("no-error", err == nil)
-	vpAssert("len", s.Lookup("y") == pyInt(3))
+// vpCompare evaluates every template once with X bound to an ordinary value and
+// once to the frozen form of an equal value (what a subinclude hands over), on
+// fresh copies each time; after every evaluation the value handed in must be
+// unchanged (C16: builtins and operators do not modify their operands; C17: a
+// frozen value cannot be modified).
+func vpCompare(parser *Parser, value pyObject, literal string, templates []string) {
+	for _, t := range templates {
+		// "WRITE:" marks the templates that assign into X (or into a list nested in it)
+		write := strings.HasPrefix(t, "WRITE:")
+		t = strings.TrimPrefix(t, "WRITE:")
+		src := strings.ReplaceAll(t, "LIT", literal) + "\n"
+		if !strings.Contains(src, "r = ") {
+			src = "r = " + src
+		}
+		t = strings.ReplaceAll(t, "\n", "; ") // (labels are single lines)
+		ordinary := vpCopy(value)
+		frozenSrc := vpCopy(value)
+		frozen := frozenSrc.(freezable).Freeze()
+		ro, eo := vpEval(parser, map[string]pyObject{"X": ordinary}, src)
+		rf, ef := vpEval(parser, map[string]pyObject{"X": frozen}, src)
+		vpCheck("template-works-on-an-ordinary-value: "+t, eo == nil)
+		if eo != nil {
+			vpNote("ordinary value: " + t + ": " + eo.Error())
+			continue
+		}
+		if !write {
+			// (templates that assign into X are the ones meant to be refused when frozen)
+			vpCheck("accepted-when-frozen: "+t, ef == nil)
+			if ef == nil {
+				vpCheck("same-result-when-frozen: "+t, vpSame(ro, rf))
+			}
+			vpCheck("operand-unchanged: "+t, vpSame(ordinary, value))
+		} else {
+			vpCheck("assignment-into-a-frozen-value-refused: "+t, ef != nil)
+		}
+		vpCheck("frozen-operand-unchanged: "+t, vpSame(frozen, value))
+	}
+}
+
+var vpListTemplates = []string{
+	"len(X)", "X[0]", "X[-1]", "X[1:]", "X[:1]", "X[1:2]", "[y for y in X]", "[y for y in X if y]",
+	"X + [9]", "[9] + X", "X + X", "X == LIT", "LIT == X", "X != LIT", "X == X", "X != [9]", "X == [9]",
+	"1 in X", "7 not in X", "bool(X)", "str(X)", "isinstance(X, list)", "isinstance(X, dict)",
+	"sorted(X)", "sorted(X, reverse = True)", "sorted(X, key = lambda y: 0 - y)", "reversed(X)", "enumerate(X)", "any(X)", "all(X)",
+	"zip(X, LIT)", "zip(LIT, X)", "min(X)", "max(X)", "min(X, key = lambda y: 0 - y)",
+	"map(lambda y: y, X)", "filter(lambda y: y, X)", "reduce(lambda a, b: a + b, X)", "reduce(lambda a, b: a + b, X, 10)",
+	"X < LIT", "LIT < X", "X if X else 0", "[a + b for a, b in zip(X, X)]", "len(X[1:])",
+	// a copy obtained from X can be written to without touching X
+	"y = X[1:]\ny[0] = 7\nr = y", "y = sorted(X)\ny[0] = 7\nr = y", "y = X + []\ny[0] = 7\nr = y", "y = [z for z in X]\ny[0] = 7\nr = y",
+	"y = reversed(X)\ny[0] = 7\nr = y",
+	// writing into X itself: allowed for an ordinary list, refused for an imported one
+	"a, b, c = X\nr = [c, b, a]", "r = 0\nfor y in X:\n    r = r + y", "r = []\nfor i, y in enumerate(X):\n    r = r + [i + y]",
+	"def f(l:list):\n    return len(l)\nr = f(X)", "def f(l:list=[]):\n    return l + [1]\nr = f(X)", "r = [X, X][1][0]", "r = X * 2", "X += [5]\nr = X",
+	"WRITE:X[0] = 7\nr = 1",
+}
+
+// vpH_C18_lists: a list of small integers (two of them solver variables), a
+// list of strings and a nested list.
+func vpH_C18_lists() {
+	parser := vpSession()
+	e1, e2 := vpNondetIntRange("e1", 0, 2), vpNondetIntRange("e2", 0, 2)
+	digits := []string{"0", "1", "2"}
+	l := pyList{pyInt(e1), pyInt(e2), pyInt(1)}
+	lit := "[" + digits[vpConcretizeInt(e1)] + ", " + digits[vpConcretizeInt(e2)] + ", 1]"
+	vpCompare(parser, l, lit, vpListTemplates)
+	ls := pyList{pyString("b"), pyString("a")}
+	vpCompare(parser, ls, `["b", "a"]`, []string{
+		`", ".join(X)`, "sorted(X)", `"a" in X`, "X == LIT", `[y.upper() for y in X]`, "min(X)", "max(X)", "len(X)", "{y: 1 for y in X}", "reversed(X)",
+	})
+	ln := pyList{pyList{pyInt(e1), pyInt(0)}, pyList{pyInt(0)}}
+	vpCompare(parser, ln, "[["+digits[vpConcretizeInt(e1)]+", 0], [0]]", []string{
+		"X[0]", "X[0] == LIT[0]", "X == LIT", "X[0] + X[1]", "len(X[0])", "[y for z in X for y in z]", "sorted(X[0])", "X[0][1:]",
+		"sorted(X)", "reversed(X[0])", "min(X[0])", "any(X[0])", "enumerate(X[0])", "isinstance(X[0], list)", "X[1] == [0]",
+		"WRITE:y = X[0]\ny[0] = 7\nr = 1", // writing through a nested element
+	})
+	lp := pyList{pyList{pyInt(e1), pyInt(5)}, pyList{pyInt(e2), pyInt(6)}}
+	vpCompare(parser, lp, "[["+digits[vpConcretizeInt(e1)]+", 5], ["+digits[vpConcretizeInt(e2)]+", 6]]", []string{
+		"[p + q for p, q in X]", "{str(p): q for p, q in X}", "r = 0\nfor p, q in X:\n    r = r + p * q", "a, b = X\nr = a + b", "a, b = X[0]\nr = a + b",
+		"sorted(X)", "sorted(X, key = lambda y: y[1])", "max(X, key = lambda y: y[0])", "zip(X[0], X[1])", "X == LIT", "dict_like = {\"a\": X}\nr = dict_like[\"a\"] == LIT",
+	})
+}
+
+var vpDictTemplates = []string{
+	"len(X)", `X["k"]`, `X.get("k")`, `X.get("zz", 5)`, `"k" in X`, `"zz" not in X`, "X == LIT", "LIT == X", "X != LIT", `X == {"k": 7}`,
+	"sorted(X.keys())", "len(X.values())", "sorted([k for k, v in X.items() if k])", "[k for k in X.keys()]",
+	`X | {"z": 1}`, `{"z": 1} | X`, "X | X", "bool(X)", "isinstance(X, dict)", "isinstance(X, list)", "X.copy()", "sorted([k for k, v in X.items()])",
+	"{k: v for k, v in X.items()}", `X["l"] == [1]`, `X["l"] + [2]`, `sorted(X["l"])`, `len(X["l"])`,
+	"y = X.copy()\ny[\"k\"] = 7\nr = y", "y = X | {}\ny[\"k\"] = 7\nr = y",
+	"WRITE:X[\"k\"] = 7\nr = 1", "WRITE:y = X[\"l\"]\ny[0] = 7\nr = 1",
+}
+
+// vpH_C18_dicts: a small dict (one value a solver variable, one a list).
+func vpH_C18_dicts() {
+	parser := vpSession()
+	e1 := vpNondetIntRange("e1", 0, 2)
+	d := pyDict{"k": pyInt(e1), "j": pyInt(2), "l": pyList{pyInt(1)}}
+	lit := `{"k": ` + []string{"0", "1", "2"}[vpConcretizeInt(e1)] + `, "j": 2, "l": [1]}`
+	vpCompare(parser, d, lit, vpDictTemplates)
 }
